@@ -106,6 +106,9 @@ func vfFreeze(root interface{}) {
 
 func vfUnfreeze() { vfFrozen = nil }
 
+// vfFreezeStop marks user-supplied state that vfFreeze must not enter.
+func vfFreezeStop(x interface{}) {}
+
 func vfFrozenWrites() int {
 	n := 0
 	for _, f := range vfFrozen {
